@@ -9,7 +9,13 @@
 (*    cartesian gradient are dyadic rationals, represented as integers in units of 2^-K;       *)
 (* 3. magnetic model assembly: piecewise linear time dependence, constant term, truncation,    *)
 (*    B = - grad (a * sum), rotation to east/north/up on a spherical earth;                    *)
-(* 4. capabilities of GravityCircle.                                                           *)
+(* 4. capabilities of GravityCircle;                                                           *)
+(* 5. keywords of the metadata files and their documented defaults; the constructor family of  *)
+(*    the harmonic classes (general / "full set" forms, default normalisation argument);       *)
+(* 6. a gravity-model lattice: non-rotating spherical reference body, so that V, W, U, T, the  *)
+(*    disturbance, the geoid height and the gravity anomaly are dyadic; truncation by          *)
+(*    Nmax / Mmax, HeightOffset / CorrectionMultiplier, GravityCircle values under every        *)
+(*    capability request; NormalGravity of the same body (J_n, U, surface gravity).             *)
 EXTENDS Integers, Sequences, FiniteSets
 
 Max(a, b) == IF a >= b THEN a ELSE b
@@ -95,6 +101,22 @@ Eff(h, n, m, sine) ==
       term(l) == IF n <= h.nmx[l] /\ m <= h.mmx[l] THEN (IF l = 1 THEN 1 ELSE h.tau[l]) * h.c[l][p] ELSE 0
   IN IF p = 0 \/ n > h.nmx[1] \/ m > h.mmx[1] THEN 0 ELSE SumSeq([l \in 1..h.L |-> term(l)], 1)
 
+\* The constructor family (SphericalHarmonic, SphericalHarmonic1, SphericalHarmonic2).  Two public forms each:
+\*   "general": (C, S, N, nmx, mmx [, C', S', N', nmx', mmx' [, C'', ...]], a, norm)     "Constructor with a subset of coefficients"
+\*   "simple":  (C, S, N [, C', S', N' [, C'', S'', N'']], a, norm)                      "Constructor with a full set of coefficients":
+\*              N_l is "the maximum degree and order" of set l, i.e. the general form with nmx_l = mmx_l = N_l.
+\* norm: "either FULL (the default) or SCHMIDT": leaving the argument out means FULL.
+\* A default-constructed object "can then be reset with the default copy assignment operator" (h.asg): same object.
+HarmNormDefault == "full"
+NormEff(norm, def) == IF norm = "default" THEN def ELSE norm
+SimpleApplicable(h) == \A l \in 1..h.L : h.nmx[l] = h.N[l] /\ h.mmx[l] = h.N[l]
+\* documented exceptions: general "N >= nmx >= mmx >= -1; N1 >= nmx1 >= mmx1 >= -1; N >= N1; nmx >= nmx1; mmx >= mmx1
+\* and similarly for N2, nmx2, mmx2"; simple "N >= N1 >= -1, and similarly for N2" (arrays are large enough in every vector)
+CtorOutcome(h) ==
+  IF /\ \A l \in 1..h.L : CoeffValid(h.N[l], h.nmx[l], h.mmx[l])
+     /\ \A l \in 2..h.L : h.N[l] <= h.N[1] /\ h.nmx[l] <= h.nmx[1] /\ h.mmx[l] <= h.mmx[1]
+  THEN "ok" ELSE "throw"
+
 \* degree-n part of the value, in units 2^-K, at the axis point AXIS[pt] * a 2^j   (q = a/r = 2^-j)
 ValDeg(h, n, pt, j) ==
   LET d == AXIS[pt]
@@ -164,6 +186,27 @@ MagMs(g) == [i \in 1..Len(g.sets) |-> g.sets[i][2]]
 MagDegree(g) == MaxOver(MagNs(g), Limits(g.Nmax, g.Mmax)[1], 1, -1)
 MagOrder(g) == MaxOver(MagMs(g), Limits(g.Nmax, g.Mmax)[2], 1, -1)
 
+\* The metadata file NAME.wmm: lines "KEY VALUE"; a model file f carries f.meta, a record whose DOMAIN is the set of keywords
+\* that are present.  Doc section magneticformat: "NumModels (default 1)", "NumConstants (default 0)", "DeltaEpoch (default 1)",
+\* "Normalization (default schmidt)", "Type (default linear)", "ByteOrder (default little)"; MagneticModel.hpp: Description()
+\* "if absent, return NONE", DateTime() "if absent, return UNKNOWN", MagneticModelName() "from the first argument of the
+\* constructor, but this may be overridden by the model file".  Radius, Epoch and ID are required and always present here.
+MagKeyDefault == [NumModels |-> 1, NumConstants |-> 0, DeltaEpoch |-> 1, Normalization |-> "schmidt", Type |-> "linear",
+                  ByteOrder |-> "little", Description |-> "NONE", ReleaseDate |-> "UNKNOWN"]
+Meta(meta, def, k) == IF k \in DOMAIN meta THEN meta[k] ELSE def[k]
+\* the model that a file f = [meta, sets, ...] denotes: the record g used by Segment / Coef8 / MagB above
+MagEff(f) == [nm |-> Meta(f.meta, MagKeyDefault, "NumModels"), nc |-> Meta(f.meta, MagKeyDefault, "NumConstants"),
+              dt0 |-> Meta(f.meta, MagKeyDefault, "DeltaEpoch"), sets |-> f.sets, tq |-> f.tq, j |-> f.j, pt |-> f.pt,
+              Nmax |-> f.Nmax, Mmax |-> f.Mmax]
+\* "This is followed by NumModels + 1 + NumConstants sets of spherical harmonic coefficients"; anything else is a corrupt file
+\* ("GeographicErr if the data file ... is corrupt"); "Only linear models / little endian are supported"
+MagFileOK(f) == LET g == MagEff(f) IN
+  /\ g.nm >= 1 /\ g.nc \in {0, 1} /\ g.dt0 >= 1 /\ Len(f.sets) = g.nm + 1 + g.nc
+  /\ Meta(f.meta, MagKeyDefault, "Type") = "linear" /\ Meta(f.meta, MagKeyDefault, "ByteOrder") = "little"
+  /\ Meta(f.meta, MagKeyDefault, "Normalization") \in {"schmidt", "full"}
+MagNorm(f) == Meta(f.meta, MagKeyDefault, "Normalization")
+MagOutcome(f) == IF LimitsValid(f.Nmax, f.Mmax) /\ MagFileOK(f) THEN "ok" ELSE "throw"
+
 (* ------------------------------------------------------------------ 4. GravityCircle capabilities *)
 \* GravityModel::mask (header): GRAVITY = CAP_G, DISTURBANCE = CAP_DELTA | CAP_T, DISTURBING_POTENTIAL = CAP_T,
 \* SPHERICAL_ANOMALY = CAP_DELTA | CAP_T | CAP_GAMMA, GEOID_HEIGHT = CAP_T | CAP_C | CAP_GAMMA0, ALL.
@@ -180,4 +223,84 @@ Needs(fn) ==
     [] fn = "anomaly" -> {"DELTA", "T", "GAMMA"} [] fn = "geoid" -> {"T", "C", "GAMMA0"}
 Avail(fn, req, h0) == Needs(fn) \subseteq Prim(req, h0)     \* otherwise "it will return NaNs"
 Fns == {"gravity", "w", "v", "disturbance", "tgrad", "t", "anomaly", "geoid"}
+
+(* ------------------------------------------------------------------ 6. gravity-model lattice *)
+\* The metadata file NAME.egm (doc section gravityformat): "HeightOffset (default 0)", "CorrectionMultiplier (default 1)",
+\* "Normalization (default full)", "ByteOrder (default little)"; GravityModel.hpp: Description() "if absent, return NONE",
+\* DateTime() "if absent, return UNKNOWN", GravityModelName() as for the magnetic model.  The required keywords are always present.
+GrvKeyDefault == [HeightOffset |-> 0, CorrectionMultiplier |-> 1, Normalization |-> "full", ByteOrder |-> "little",
+                  Description |-> "NONE", ReleaseDate |-> "UNKNOWN"]
+\* A lattice gravity file G: ModelRadius 2^ja, ReferenceRadius 2^jr, ModelMass 2^km, ReferenceMass 2^kr (par = <<ja, jr, km, kr>>),
+\* AngularVelocity 0 and Flattening 0 (or DynamicalFormFactor 0): the reference body is a non-rotating sphere, so that
+\* U = GMref / R, Phi = 0, gamma = GMref / R^2 and every quantity below is a dyadic rational.  gs = <<N, M, c>> is the gravity
+\* set (c as in Pos, C00 = 0 in the file: "the 1/r term" is implied), cs = <<Nc, Mc, c>> the "zeta-to-N" correction set.
+\* The point is MPT[p] (section 3) at radius R = 2^(ja + j), i.e. height R - 2^jr.
+AxisOf(p) == IF p <= 4 THEN p ELSE IF p <= 8 THEN 5 ELSE 6
+ASSUME \A p \in 1..12 : AXIS[AxisOf(p)] = Up(MPT[p])
+Sh(x, e) == IF e >= 0 THEN x * 2^e ELSE x \div 2^(-e)            \* x 2^e; MC_Harmonic checks that the division is exact
+GLim(G) == Limits(G.Nmax, G.Mmax)
+GrvNorm(G) == Meta(G.meta, GrvKeyDefault, "Normalization")
+GrvFileOK(G) ==
+  /\ PairValid(G.gs[1], G.gs[2]) /\ G.gs[1] >= 0 /\ G.gs[3][1] = 0 /\ PairValid(G.cs[1], G.cs[2])
+  /\ Meta(G.meta, GrvKeyDefault, "CorrectionMultiplier") >= 1 /\ Meta(G.meta, GrvKeyDefault, "ByteOrder") = "little"
+  /\ GrvNorm(G) \in {"schmidt", "full"}
+\* "GeographicErr ... if Mmax > Nmax"
+GrvOutcome(G) == IF LimitsValid(G.Nmax, G.Mmax) /\ GrvFileOK(G) THEN "ok" ELSE "throw"
+\* the two harmonic sums of the model, cut by "Nmax: truncate the degree", "Mmax: truncate the order"
+GH(G) == [L |-> 1, tau |-> <<1>>, N |-> <<G.gs[1]>>, nmx |-> <<Min(G.gs[1], GLim(G)[1])>>, mmx |-> <<Min(G.gs[2], GLim(G)[2])>>,
+          c |-> <<[G.gs[3] EXCEPT ![1] = 1]>>]
+CH(G) == [L |-> 1, tau |-> <<1>>, N |-> <<G.cs[1]>>, nmx |-> <<Min(G.cs[1], GLim(G)[1])>>, mmx |-> <<Min(G.cs[2], GLim(G)[2])>>,
+          c |-> <<G.cs[3]>>]
+\* Degree() / Order(): "the maximum degree / order of the components of the model" (an absent correction set counts as the
+\* constant HeightOffset, degree and order 0 - named rule EmptyCorrectionIsConstant)
+GrvDegree(G) == Max(GH(G).nmx[1], Max(CH(G).nmx[1], 0))
+GrvOrder(G) == Max(GH(G).mmx[1], Max(CH(G).mmx[1], 0))
+GJa(G) == G.par[1]
+GJr(G) == G.par[2]
+GKa(G) == G.par[3] - G.par[1]                                   \* GMmodel / amodel = 2^GKa
+GKr(G) == G.par[4]
+GAx(G) == AxisOf(G.p)
+GDir(G) == AXIS[GAx(G)]
+\* all values in units 2^-K
+GV(G) == 2^GKa(G) * ValNum(GH(G), GAx(G), G.j)                                   \* V = GM/a sum
+GVg(G) == Scale(2^GKa(G), GradNum(GH(G), GAx(G), G.j, GJa(G)))
+GU(G) == 2^(K + GKr(G) - GJa(G) - G.j)                                           \* U = V0 = GMref / R  (Phi = 0)
+GUg(G) == Scale(-(2^(K + GKr(G) - 2 * (GJa(G) + G.j))), GDir(G))                  \* gamma = - GMref / R^2 s
+GT(G) == GV(G) - GU(G)                                                           \* T = W - U = V - V0
+GTg(G) == Add3(GVg(G), Scale(-1, GUg(G)))                                        \* delta = g - gamma
+\* T without the 1/r term (doc gravitygeoid; H+M 2-151c is applied to it as well)
+GTp(G, jj) == 2^GKa(G) * (ValNum(GH(G), GAx(G), jj) - ValDeg(GH(G), 0, GAx(G), jj))
+GTpg(G) == Scale(2^GKa(G), Add3(GradNum(GH(G), GAx(G), G.j, GJa(G)), Scale(-1, GradDeg(GH(G), 0, GAx(G), G.j, GJa(G)))))
+\* "Dg01 = - dT/dr - 2 T / R"
+GAnom(G) == -Dot(GDir(G), GTpg(G)) - Sh(2 * GTp(G, G.j), -(GJa(G) + G.j))
+\* geoid height N = T(surface) / gamma0 + CorrectionMultiplier * correction sum + HeightOffset, the correction sum evaluated
+\* on the unit sphere with a = 1; surface point: R = 2^jr, gamma0 = GMref / aref^2
+GGeoid(G) == Sh(GTp(G, GJr(G) - GJa(G)), 2 * GJr(G) - GKr(G))
+             + Meta(G.meta, GrvKeyDefault, "CorrectionMultiplier") * ValNum(CH(G), GAx(G), 0)
+             + Meta(G.meta, GrvKeyDefault, "HeightOffset") * 2^K
+GH0(G) == GJa(G) + G.j = GJr(G)                                                  \* the point is on the ellipsoid (h = 0)
+NaNK == 2000000001                                                               \* how the driver logs a NaN
+Four(x, g) == <<x, g[1], g[2], g[3]>>
+NaNs(n) == [i \in 1..n |-> NaNK]
+\* deflections of the vertical in radians: xi = - delta_north / gamma, eta = - delta_east / gamma, gamma = GMref / R^2 a power of two
+GDefl(G) == LET t == ToENU(MPT[G.p], GTpg(G))  e == 2 * (GJa(G) + G.j) - GKr(G) IN <<Sh(-t[2], e), Sh(-t[1], e)>>
+\* everything that is observed of one model at one point; the circle is created with the capability request G.req
+GrvExp(G) ==
+  LET enu(g) == ToENU(MPT[G.p], g)
+      av(fn, x) == IF Avail(fn, G.req, GH0(G)) THEN x ELSE NaNs(Len(x))
+  IN [pv |-> Four(GV(G), GVg(G)), pw |-> Four(GV(G), GVg(G)), pu |-> Four(GU(G), GUg(G)),
+      pt1 |-> <<GT(G)>>, pt |-> Four(GT(G), GTg(G)),
+      gg |-> Four(GV(G), enu(GVg(G))), gd |-> Four(GT(G), enu(GTg(G))), gn |-> <<GGeoid(G)>>, ga |-> <<GAnom(G)>>,
+      cv |-> av("v", Four(GV(G), GVg(G))), cw |-> av("w", Four(GV(G), GVg(G))), cg |-> av("gravity", Four(GV(G), enu(GVg(G)))),
+      cd |-> av("disturbance", Four(GT(G), enu(GTg(G)))), ct1 |-> av("t", <<GT(G)>>), ct |-> av("tgrad", Four(GT(G), GTg(G))),
+      cn |-> av("geoid", <<GGeoid(G)>>), ca |-> av("anomaly", <<GAnom(G)>>), gx |-> GDefl(G), cx |-> av("anomaly", GDefl(G))]
+
+\* NormalGravity of the non-rotating sphere a = 2^ja, GM = 2^km: "J_n = 0 if n is odd"; "C_n0 = - J_n / sqrt(2n + 1)" for the
+\* coefficient of the Legendre sum of V0 = GM/r, hence J_0 = -1 and J_n = 0 for n >= 1 (n = 2: "the value used in the constructor").
+\* Named rule NoSuchCoefficient: a negative n denotes no coefficient; nothing is required of the result.
+NgJn(n) == IF n = 0 THEN -(2^K) ELSE 0
+NgU(g) == 2^(K + g.km - g.ja - g.j)
+NgUg(g) == Scale(-(2^(K + g.km - 2 * (g.ja + g.j))), AXIS[AxisOf(g.p)])
+NgSurf(g) == 2^(K + g.km - 2 * g.ja)                               \* gamma_e = gamma_p = SurfaceGravity(lat) = GM / a^2
+NgU0(g) == 2^(K + g.km - g.ja)                                     \* SurfacePotential
 =============================================================================
